@@ -389,3 +389,21 @@ def owner_tests(fn):
                 if fails_when_not_owned and passes_when_owned:
                     out.append((at, (k[2] or "").split("<")[0].rsplit("::", 1)[-1], t[2][0], (at.true_codes if neg else at.false_codes), neg))
     return out
+
+
+def same_as_specialised(wrapper, callee, ctx):
+    """A wrapper that no longer calls `callee(.., flag)` but spells out what callee does for that flag: its guard atoms, primitive
+    calls and returned terms equal those of `callee` in context `ctx` (atoms decided by the context itself left out).
+    Returns (ok, difference text)."""
+    from analysis import siblings as S
+    sa = S.summary(wrapper, S.Norm())
+    sb = S.summary(callee, S.Norm(), ctx=dict(ctx))
+    decided_ = set(ctx) | {"0", "1", "true", "false"}
+    sb["atoms"] = {a for a in sb["atoms"] if a.split(" => ", 1)[0] not in decided_}
+    d = S.diff(sa, sb)
+    if not d:
+        return True, ""
+    parts = []
+    for k, oa, ob in d:
+        parts += ["%s only in %s: %s" % (k, wrapper.name, x[:160]) for x in oa] + ["%s only in %s[%s]: %s" % (k, callee.name, ctx, x[:160]) for x in ob]
+    return False, "; ".join(parts[:6])
